@@ -49,7 +49,8 @@ def run(ctx):
             checker = Checker(model, lvs.USER_FNS)
             loaded = Checker.load(checker.save(), lvs.USER_FNS)
         except (SemanticError, LvsModelError) as e:
-            ctx.report(f'clean-schema-rejected:{type(e).__name__}', f'a statically clean schema was rejected: {e}', w)
+            # whether clean schemas are accepted is C13's clause; here a schema without a compiled model cannot be judged
+            ctx.event('schema-rejected-not-judged')
             continue
         except Exception as e:   # noqa
             ctx.report(f'compile-raises:{type(e).__name__}@{raising_site(e)[0]}', f'{e!r}', w)
@@ -144,6 +145,7 @@ def run(ctx):
             ctx.case((text, tuple(pkt), tuple(key)), nontrivial=any(r in signed_rules for r, b in ref.match(pkt)),
                      sample=dict(w, pkt=rc.name_to_uri(pkt, canonical=True), key=rc.name_to_uri(key, canonical=True), expected=exp) if exp and ctx.evaluations % 9000 == 1 else None)
     ctx.need_class('template-schema')
+    ctx.need_event('schema', 30)
     for k in ('schema', 'check-true', 'check-false'):
         ctx.need_event(k)
     ctx.assumptions = ['schemas are level-structured so that no name pattern is its own signer',
